@@ -58,6 +58,16 @@ func execC(t byte, init string, ops []string) []string {
 			case "t":
 				w, wt := wrapAny(l)
 				res = "t" + valsStr(wt, w.toArr())
+			case "P":
+				res = "v" + val{s: l.(interface{ ToString() string }).ToString()}.str('s')
+			case "gV":
+				res = valueStr(l.GetValue(atoi(f[1])))
+			case "gO":
+				if l.GetObject(atoi(f[1])) == nil {
+					res = "nil"
+				} else {
+					res = "not-nil"
+				}
 			default:
 				panic("bad op " + op)
 			}
@@ -201,6 +211,19 @@ func specC(t byte, ops []string) []string {
 			} else {
 				res = "v" + val{s: fmtDec(ints[i])}.str('s')
 			}
+		case "P":
+			res = "?" // the table with its unused capacity: compared with the model only
+		case "gO":
+			res = "nil"
+		case "gV":
+			i := atoi(f[1])
+			if i < 0 || i >= n() {
+				res = "p"
+			} else if isS {
+				res = "Vtext:" + val{s: strs[i]}.str('s')
+			} else {
+				res = "Vdecimal:" + fmtDec(ints[i])
+			}
 		case "t":
 			if isS {
 				vs := make([]val, len(strs))
@@ -248,6 +271,12 @@ func genC(r *vh.Rng) string {
 			ops = append(ops, "sI:"+strconv.Itoa(idxNear(r, size))+":"+strconv.FormatInt(genVal(r, 'l').i, 10))
 		case x < 67:
 			ops = append(ops, "sS:"+strconv.Itoa(idxNear(r, size))+":"+txt())
+		case x < 70:
+			ops = append(ops, "P")
+		case x < 73:
+			ops = append(ops, "gV:"+strconv.Itoa(idxNear(r, size)))
+		case x < 74:
+			ops = append(ops, "gO:"+strconv.Itoa(idxNear(r, size)))
 		case x < 80:
 			ops = append(ops, "gI:"+strconv.Itoa(idxNear(r, size)))
 		case x < 95:
